@@ -5,7 +5,7 @@ import time
 
 import z3
 
-from .smt import PathSolver, Z, simp
+from .smt import PathSolver, Z, fresh_int, reset_names, simp
 from .values import PathEnd
 
 
@@ -26,6 +26,7 @@ class Obligation:
 
 class PathCtx:
     def __init__(self, decisions, axioms=(), prove_timeout_ms=10000, feas_timeout_ms=3000, keep_formulas=False):
+        reset_names()
         self.decisions = list(decisions)
         self.taken: list[bool] = []
         self.pending: list[list[bool]] = []
@@ -72,8 +73,8 @@ class PathCtx:
         key = (a.get_id(), K)
         hit = self._divmod.get(key)
         if hit is None:
-            q = z3.FreshInt("q")
-            r = z3.FreshInt("r")
+            q = fresh_int("q")
+            r = fresh_int("r")
             self.solver.add(z3.And(a == K * q + r, r >= 0, r < K))
             lst = self._divs_of.setdefault(a.get_id(), [])
             for K1, q1, r1 in lst:
@@ -81,7 +82,7 @@ class PathCtx:
                 (qa, ra), (qb, rb) = ((q1, r1), (q, r)) if K1 < K else ((q, r), (q1, r1))
                 if y % x == 0:
                     m = y // x
-                    sv = z3.FreshInt("s")
+                    sv = fresh_int("s")
                     self.solver.add(z3.And(qa == m * qb + sv, sv >= 0, sv < m, rb == x * sv + ra))
             lst.append((K, q, r))
             hit = (q, r, a)
